@@ -24,10 +24,10 @@ Definition conv_eqb (a b : conv) : bool :=
   | _, _ => false
   end.
 
-(* the conversion found is the documented one, or the C string is passed where a std::string is expected (the C++
-   compiler then applies std::string's converting constructor: the same value) *)
-Definition conv_compat (c e : conv) : bool :=
-  conv_eqb c e || match c, e with Direct, StringFrom => true | _, _ => false end.
+(* the conversion found is the documented one.  (A C string handed to the call where a std::string is expected is NOT accepted:
+   the converting constructor gives the same value only when overload resolution still picks this candidate — with an overload
+   taking bool or const char * it does not.) *)
+Definition conv_compat (c e : conv) : bool := conv_eqb c e.
 
 (* parameter kinds: type group, indirection, intent *)
 Record pkind := { k_group : string; k_ptrs : string; k_intent : string }.
